@@ -149,6 +149,53 @@ func TestVerifReplayPaths(t *testing.T) {
 	check(ifc, "interface", map[string]string{"name": "zz"}, 0, 1)
 	fmt.Printf("REPLAY-CASES fn=%s n=%d\n", fnF, m)
 	vrpJoinedKeys(t)
+	vrpNavigate(t)
+}
+
+// a path with several keys is looked up at the entry it names, however the key map is iterated
+func vrpNavigate(t *testing.T) {
+	fnN := "(*tree.sharedEntryAttributes).NavigateSdcpbPath"
+	ctx := context.Background()
+	mockCtrl := gomock.NewController(t)
+	scb, err := testhelper.GetSchemaClientBound(t, mockCtrl)
+	if err != nil {
+		t.Fatal(err)
+	}
+	cacheClient := mockcacheclient.NewMockClient(mockCtrl)
+	testhelper.ConfigureCacheClientMock(t, cacheClient, []*cache.Update{}, []*cache.Update{}, []*cache.Update{}, [][]string{})
+	root, err := NewTreeRoot(ctx, NewTreeContext(NewTreeCacheClient("dev1", cacheClient), scb, "owner1"))
+	if err != nil {
+		t.Fatal(err)
+	}
+	flags := NewUpdateInsertFlags()
+	flags.SetNewFlag()
+	for _, kk := range [][2]string{{"x", "y"}, {"y", "x"}} {
+		b, _ := proto.Marshal(&sdcpb.TypedValue{Value: &sdcpb.TypedValue_StringVal{StringVal: "m-" + kk[0] + kk[1]}})
+		if _, err := root.AddCacheUpdateRecursive(ctx, cache.NewUpdate([]string{"doublekey", kk[0], kk[1], "mandato"}, b, 5, "owner1", 0), flags); err != nil {
+			t.Fatal(err)
+		}
+	}
+	root.FinishInsertionPhase(ctx)
+	n := 0
+	for run := 0; run < 60; run++ {
+		n++
+		p := vrpPath("doublekey", map[string]string{"key1": "x", "key2": "y"}, "mandato")
+		e, err := root.NavigateSdcpbPath(ctx, p.Elem, true)
+		if err != nil || strings.Join(e.Path(), "/") != "doublekey/x/y/mandato" {
+			got := "<nil>"
+			if e != nil {
+				got = strings.Join(e.Path(), "/")
+			}
+			fmt.Printf("REPLAY-FAIL fn=%s clause=lookup_ends_at_the_named_entry input=tree holds doublekey[key1=x][key2=y] and doublekey[key1=y][key2=x], lookup of doublekey[key1=x][key2=y]/mandato (run %d) why=ended at %s (err %v)\n", fnN, run, got, err)
+			break
+		}
+	}
+	// a '.' step stays where it is
+	n++
+	if e, err := root.NavigateSdcpbPath(ctx, []*sdcpb.PathElem{{Name: "."}, {Name: "doublekey"}}, true); err != nil || e == nil || strings.Join(e.Path(), "/") != "doublekey" {
+		fmt.Printf("REPLAY-FAIL fn=%s clause=lookup_ends_at_the_named_entry input=lookup of ./doublekey from the root why=ended at %v (err %v)\n", fnN, e, err)
+	}
+	fmt.Printf("REPLAY-CASES fn=%s n=%d\n", fnN, n)
 }
 
 // joined path keys: two different instance paths are never treated as the same one
